@@ -6,6 +6,7 @@ from ..core import violation, Discard
 from ..gen_scenes import gen_contact_scene
 from ..scenes import build
 from ..seams import Sim
+from .. import rot
 from ..session import NONSMOOTH, gen_solver, run_solver, solver_options, check_solution_shape, restore_basis
 
 PROPERTY = "C18"
@@ -51,6 +52,28 @@ def gen(rng, tier, index):
     dt = float(10 ** rng.uniform(-3.0, -2.0))
     steps = int(rng.integers(40, 200 if tier == "thorough" else 120))
     solver = gen_solver(rng, name, steps, dt, tight=bool(rng.random() < 0.5), contacts=True)
+    x = rng.random()
+    if not free and x < 0.3:
+        # the ground is moved explicitly in time (shaking, optionally tilting): gap rates and slip velocities then
+        # have a part that does not come from the bodies' velocities
+        ground = scene["contacts"][0]["plane"]
+        n0 = rot.quat_to_mat(ground["p"])[:, 2]
+        ground["motion"] = {
+            "amp": (n0 * float(rng.uniform(0.01, 0.06)) + rng.normal(size=3) * float(rng.choice([0.0, 0.03]))).tolist(),
+            "w": float(rng.uniform(3, 12)),
+            "axis": rng.normal(size=3).tolist(),
+            "alpha": float(rng.choice([0.0, rng.uniform(0.02, 0.15)])),
+            "phase": float(np.pi / 2) if rng.random() < 0.8 else 0.0,  # mostly starting from rest (resting spheres stay consistent)
+        }
+    elif name == "Moreau" and x < 0.55:
+        # the unit system is the user's: the same scene in milligrams or tonnes (Moreau measures convergence in
+        # velocities, which do not change; percussions scale with the masses)
+        sc = float(10.0 ** int(rng.choice([-8, -7, -6, -4, 3])))
+        for b in scene["bodies"]:
+            b["m"] = b["m"] * sc
+            if b["kind"] == "rigid":
+                b["theta"] = (np.array(b["theta"], dtype=float) * sc).tolist()
+        scene["mass_scale"] = sc
     return {"scene": scene, "solver": solver, "free": free}
 
 
@@ -86,8 +109,9 @@ def monitor(R, out, log, plan):
     # gap tolerance: position error that the fixed-point / Newton criteria allow
     tol_g = C_PEN * max(ftol * dt, ntol) * (1 + float(np.max(np.abs(q))))
     tol_xi = C_XI * ftol
-    tol_P = 1e-10 * (1 + Pscale)
-    tol_cone = C_CONE * ftol * mscale + 1e-9 * (1 + Pscale)
+    # all percussion tolerances are relative to the scene's own mass / percussion scale (the unit system is the user's)
+    tol_P = 1e-10 * (mscale + Pscale)
+    tol_cone = C_CONE * ftol * mscale + 1e-9 * (mscale + Pscale)
     modes = [[] for _ in contacts]
     worst = {"pen": 0.0, "xi": 0.0, "cone": 0.0, "slipdir": 0.0, "dT": 0.0}
 
@@ -209,6 +233,10 @@ def monitor(R, out, log, plan):
         T_prev = T
     log.ev("worst", name, worst["pen"], worst["xi"], worst["cone"], worst["slipdir"], worst["dT"])
     out["probes"][f"ran_{name}"] += 1
+    if any((co.get("plane") or {}).get("motion") for co in B.scene["contacts"]):
+        out["probes"]["moving_plane_session"] += 1
+    if B.scene.get("mass_scale"):
+        out["probes"]["rescaled_masses_session"] += 1
     out["worst"] = worst
     return ["".join(m)[:12] for m in modes]
 
